@@ -4,9 +4,9 @@ import Dmn.Model.Json
 # Helper lemmas: the decoder reads back what the renderers write
 
 Layers: whitespace and literal names; the number automaton (`scanFrom_append`); strings
-(`parseString_plain`, `parseString_escape`); then "rendering" predicates (`Renders`,
+(`parseString_plain` for literal member names, `parseString_escape`); then "rendering" predicates (`Renders`,
 `ElemsOk`, `MembersOk`) with one lemma per parser step, from which the theorems about
-`jsonify` and `jsonifyFixed` in `Props/C18.lean` are assembled.
+`jsonify` and `jsonify` in `Props/C18.lean` are assembled.
 -/
 
 namespace Dmn.Json
@@ -113,6 +113,11 @@ theorem numfirst_not_special {c : Char} (h : c = '-' ∨ isDigit c = true) :
     exact ⟨⟨⟨ne _ (by decide), ne _ (by decide)⟩, ne _ (by decide)⟩, ne _ (by decide)⟩
 
 /-! ## Strings -/
+
+/-- A character that may stand for itself between quotation marks (§7 `unescaped`). -/
+def plainChar (c : Char) : Bool := !(c == '"') && !(c == '\\') && !(c.toNat < 0x20)
+
+def plainText (s : List Char) : Bool := s.all plainChar
 
 theorem plainChar_iff {c : Char} (h : plainChar c = true) :
     (c == '"') = false ∧ (c == '\\') = false ∧ ¬ c.toNat < 0x20 := by
@@ -382,96 +387,24 @@ theorem decode_of_renders {text : List Char} {j : Json} (h : Renders text j) : d
   rw [skipWs_head hws, this]
   rfl
 
-/-! ## The two renderers -/
-
-/-- Inside the region without characters that need escaping (and with number texts of the
-JSON grammar), the unrepaired `jsonify` writes a rendering of `toJson v`. -/
-theorem jsonify_renders (v : JV) :
-    noEscapeNeeded v = true → numbersOk v = true → Renders (jsonify v) (toJson v) := by
-  refine JV.rec
-    (motive_1 := fun v => noEscapeNeeded v = true → numbersOk v = true → Renders (jsonify v) (toJson v))
-    (motive_2 := fun xs => noEscapeNeededList xs = true → numbersOkList xs = true →
-      (∀ t j, Renders t j → ElemsOk (t ++ jsonifyMore xs) (j :: toJsonList xs)) ∧
-      (xs ≠ [] → ElemsOk (jsonifyItems xs) (toJsonList xs)))
-    (motive_3 := fun es => noEscapeNeededEntries es = true → numbersOkEntries es = true →
-      (∀ kt k t j, KeyOk kt k → Renders t j →
-        MembersOk ('"' :: (kt ++ ':' :: ' ' :: (t ++ jsonifyMoreEntries es))) ((k, j) :: toJsonEntries es)) ∧
-      (es ≠ [] → MembersOk (jsonifyEntries es) (toJsonEntries es)))
-    (motive_4 := fun e => noEscapeNeeded e.2 = true → numbersOk e.2 = true → Renders (jsonify e.2) (toJson e.2))
-    ?null ?bool ?num ?str ?list ?ctx ?other ?nil ?cons ?enil ?econs ?pair v
-  case null => intro _ _; exact renders_null
-  case bool => intro b _ _; cases b; exact renders_false; exact renders_true
-  case num => intro t _ h; simp only [numbersOk] at h; exact renders_num h
-  case str =>
-    intro s h _
-    simp only [noEscapeNeeded] at h
-    exact renders_string (keyOk_plain h)
-  case list =>
-    intro xs ih h1 h2
-    simp only [noEscapeNeeded, numbersOk] at h1 h2
-    cases xs with
-    | nil => exact renders_arr_nil
-    | cons x xs => exact renders_arr ((ih h1 h2).2 (by simp))
-  case ctx =>
-    intro es ih h1 h2
-    simp only [noEscapeNeeded, numbersOk] at h1 h2
-    cases es with
-    | nil => exact renders_obj_nil
-    | cons e es => exact renders_obj ((ih h1 h2).2 (by simp))
-  case other => intro d h; simp [noEscapeNeeded] at h
-  case nil =>
-    intro _ _
-    refine ⟨?_, fun h => absurd rfl h⟩
-    intro t j h; simpa [jsonifyMore, toJsonList] using elems_one h
-  case cons =>
-    intro x xs ihx ihxs h1 h2
-    simp only [noEscapeNeededList, numbersOkList, Bool.and_eq_true] at h1 h2
-    have hx := ihx h1.1 h2.1
-    have hxs := (ihxs h1.2 h2.2).1
-    refine ⟨?_, fun _ => ?_⟩
-    · intro t j h
-      simp only [jsonifyMore, toJsonList]
-      exact elems_cons h (hxs _ _ hx)
-    · simp only [jsonifyItems, toJsonList]
-      exact hxs _ _ hx
-  case enil =>
-    intro _ _
-    refine ⟨?_, fun h => absurd rfl h⟩
-    intro kt k t j hk h
-    simpa [jsonifyMoreEntries, toJsonEntries] using members_one hk h
-  case econs =>
-    intro e es ihe ihes h1 h2
-    obtain ⟨k', v'⟩ := e
-    simp only [noEscapeNeededEntries, numbersOkEntries, Bool.and_eq_true] at h1 h2
-    have hv := ihe h1.1.2 h2.1
-    have hes := (ihes h1.2 h2.2).1
-    have hk' : KeyOk (k' ++ ['"']) k' := keyOk_plain h1.1.1
-    refine ⟨?_, fun _ => ?_⟩
-    · intro kt k t j hk h
-      simp only [jsonifyMoreEntries, toJsonEntries]
-      have := members_cons hk h (hes _ _ _ _ hk' hv)
-      simpa [List.append_assoc] using this
-    · simp only [jsonifyEntries, toJsonEntries]
-      have := hes _ _ _ _ hk' hv
-      simpa [List.append_assoc] using this
-  case pair => intro k v ih; exact ih
+/-! ## The renderer -/
 
 theorem renders_quote (s : List Char) : Renders (quote s) (.str s) :=
   renders_string (keyOk_escape s)
 
-/-- The repaired renderer writes a rendering of `toJson v` for every value whose number texts
-are numbers of the JSON grammar — whatever characters its strings and keys contain. -/
-theorem jsonifyFixed_renders (v : JV) : numbersOk v = true → Renders (jsonifyFixed v) (toJson v) := by
+/-- `jsonify` writes a rendering of `toJson v` for every value whose number texts are numbers
+of the JSON grammar — whatever characters its strings and keys contain. -/
+theorem jsonify_renders (v : JV) : numbersOk v = true → Renders (jsonify v) (toJson v) := by
   refine JV.rec
-    (motive_1 := fun v => numbersOk v = true → Renders (jsonifyFixed v) (toJson v))
+    (motive_1 := fun v => numbersOk v = true → Renders (jsonify v) (toJson v))
     (motive_2 := fun xs => numbersOkList xs = true →
-      (∀ t j, Renders t j → ElemsOk (t ++ jsonifyFixedMore xs) (j :: toJsonList xs)) ∧
-      (xs ≠ [] → ElemsOk (jsonifyFixedItems xs) (toJsonList xs)))
+      (∀ t j, Renders t j → ElemsOk (t ++ jsonifyMore xs) (j :: toJsonList xs)) ∧
+      (xs ≠ [] → ElemsOk (jsonifyItems xs) (toJsonList xs)))
     (motive_3 := fun es => numbersOkEntries es = true →
       (∀ kt k t j, KeyOk kt k → Renders t j →
-        MembersOk ('"' :: (kt ++ ':' :: ' ' :: (t ++ jsonifyFixedMoreEntries es))) ((k, j) :: toJsonEntries es)) ∧
-      (es ≠ [] → MembersOk (jsonifyFixedEntries es) (toJsonEntries es)))
-    (motive_4 := fun e => numbersOk e.2 = true → Renders (jsonifyFixed e.2) (toJson e.2))
+        MembersOk ('"' :: (kt ++ ':' :: ' ' :: (t ++ jsonifyMoreEntries es))) ((k, j) :: toJsonEntries es)) ∧
+      (es ≠ [] → MembersOk (jsonifyEntries es) (toJsonEntries es)))
+    (motive_4 := fun e => numbersOk e.2 = true → Renders (jsonify e.2) (toJson e.2))
     ?null ?bool ?num ?str ?list ?ctx ?other ?nil ?cons ?enil ?econs ?pair v
   case null => intro _; exact renders_null
   case bool => intro b _; cases b; exact renders_false; exact renders_true
@@ -493,7 +426,7 @@ theorem jsonifyFixed_renders (v : JV) : numbersOk v = true → Renders (jsonifyF
   case nil =>
     intro _
     refine ⟨?_, fun h => absurd rfl h⟩
-    intro t j h; simpa [jsonifyFixedMore, toJsonList] using elems_one h
+    intro t j h; simpa [jsonifyMore, toJsonList] using elems_one h
   case cons =>
     intro x xs ihx ihxs h2
     simp only [numbersOkList, Bool.and_eq_true] at h2
@@ -501,15 +434,15 @@ theorem jsonifyFixed_renders (v : JV) : numbersOk v = true → Renders (jsonifyF
     have hxs := (ihxs h2.2).1
     refine ⟨?_, fun _ => ?_⟩
     · intro t j h
-      simp only [jsonifyFixedMore, toJsonList]
+      simp only [jsonifyMore, toJsonList]
       exact elems_cons h (hxs _ _ hx)
-    · simp only [jsonifyFixedItems, toJsonList]
+    · simp only [jsonifyItems, toJsonList]
       exact hxs _ _ hx
   case enil =>
     intro _
     refine ⟨?_, fun h => absurd rfl h⟩
     intro kt k t j hk h
-    simpa [jsonifyFixedMoreEntries, toJsonEntries] using members_one hk h
+    simpa [jsonifyMoreEntries, toJsonEntries] using members_one hk h
   case econs =>
     intro e es ihe ihes h2
     obtain ⟨k', v'⟩ := e
@@ -519,10 +452,10 @@ theorem jsonifyFixed_renders (v : JV) : numbersOk v = true → Renders (jsonifyF
     have hk' : KeyOk (escape k' ++ ['"']) k' := keyOk_escape k'
     refine ⟨?_, fun _ => ?_⟩
     · intro kt k t j hk h
-      simp only [jsonifyFixedMoreEntries, toJsonEntries, quote]
+      simp only [jsonifyMoreEntries, toJsonEntries, quote]
       have := members_cons hk h (hes _ _ _ _ hk' hv)
       simpa [List.append_assoc] using this
-    · simp only [jsonifyFixedEntries, toJsonEntries, quote]
+    · simp only [jsonifyEntries, toJsonEntries, quote]
       have := hes _ _ _ _ hk' hv
       simpa [List.append_assoc] using this
   case pair => intro k v ih; exact ih
@@ -602,49 +535,5 @@ theorem renders_dataObjectBody (m : List Char × List Char) (ms : List (List Cha
   have hk : KeyOk (['d', 'a', 't', 'a'] ++ ['"']) ['d', 'a', 't', 'a'] := keyOk_plain (by decide)
   have := renders_obj (members_one' hk (renders_obj (stringMembers_ok m ms)))
   simpa [dataObjectBody, List.append_assoc] using this
-
-/-! ## The repair is conservative -/
-
-theorem escape_plain {s : List Char} (h : plainText s = true) : escape s = s := by
-  induction s with
-  | nil => rfl
-  | cons c s ih =>
-    simp only [plainText, List.all_cons, Bool.and_eq_true] at h
-    obtain ⟨h1, h2, h3⟩ := plainChar_iff h.1
-    have ne : ∀ d : Char, d.toNat < 0x20 → (c == d) = false := by
-      intro d hd; rw [beq_eq_false_iff_ne]; rintro rfl; exact h3 hd
-    have ih := ih (by simpa [plainText] using h.2)
-    simp [escape, escapeChar, h1, h2, h3, ih, ne (Char.ofNat 8) (by decide), ne (Char.ofNat 9) (by decide),
-      ne (Char.ofNat 10) (by decide), ne (Char.ofNat 12) (by decide), ne (Char.ofNat 13) (by decide)]
-
-theorem jsonifyFixed_eq_of_plain (v : JV) : noEscapeNeeded v = true → jsonifyFixed v = jsonify v := by
-  refine JV.rec
-    (motive_1 := fun v => noEscapeNeeded v = true → jsonifyFixed v = jsonify v)
-    (motive_2 := fun xs => noEscapeNeededList xs = true →
-      jsonifyFixedItems xs = jsonifyItems xs ∧ jsonifyFixedMore xs = jsonifyMore xs)
-    (motive_3 := fun es => noEscapeNeededEntries es = true →
-      jsonifyFixedEntries es = jsonifyEntries es ∧ jsonifyFixedMoreEntries es = jsonifyMoreEntries es)
-    (motive_4 := fun e => noEscapeNeeded e.2 = true → jsonifyFixed e.2 = jsonify e.2)
-    ?null ?bool ?num ?str ?list ?ctx ?other ?nil ?cons ?enil ?econs ?pair v
-  case null => intro _; rfl
-  case bool => intro b _; cases b <;> rfl
-  case num => intro t _; rfl
-  case str => intro s h; simp only [noEscapeNeeded] at h; simp [jsonifyFixed, jsonify, quote, escape_plain h]
-  case list => intro xs ih h; simp only [noEscapeNeeded] at h; simp [jsonifyFixed, jsonify, (ih h).1]
-  case ctx => intro es ih h; simp only [noEscapeNeeded] at h; simp [jsonifyFixed, jsonify, (ih h).1]
-  case other => intro d h; simp [noEscapeNeeded] at h
-  case nil => intro _; exact ⟨rfl, rfl⟩
-  case cons =>
-    intro x xs ihx ihxs h
-    simp only [noEscapeNeededList, Bool.and_eq_true] at h
-    simp [jsonifyFixedItems, jsonifyItems, jsonifyFixedMore, jsonifyMore, ihx h.1, (ihxs h.2).2]
-  case enil => intro _; exact ⟨rfl, rfl⟩
-  case econs =>
-    intro e es ihe ihes h
-    obtain ⟨k, v⟩ := e
-    simp only [noEscapeNeededEntries, Bool.and_eq_true] at h
-    simp [jsonifyFixedEntries, jsonifyEntries, jsonifyFixedMoreEntries, jsonifyMoreEntries, quote,
-      escape_plain h.1.1, ihe h.1.2, (ihes h.2).2]
-  case pair => intro k v ih; exact ih
 
 end Dmn.Json
